@@ -157,10 +157,11 @@ FirstMerger(P, tip, r) ==
         I == {i \in DOMAIN lh : r \in Anc0(P, lh[i])}
     IN IF I = {} THEN ERR ELSE lh[SetMin(I)]
 
-\* graph.find_unique_lca: LCAs, then LCAs of those, ... until unique; Null when nothing is in common
+\* graph.find_unique_lca: LCAs, then LCAs of those, ... until unique; Null when nothing is in common.  A ghost that
+\* both sides reach is a common ancestor like any other (nothing is known about what lies behind it).
 RECURSIVE UniqueLcaOf(_, _)
 UniqueLcaOf(P, S) ==
-    LET common == {x \in DOMAIN P : \A y \in S : x \in Anc0(P, y)}
+    LET common == {x \in DOMAIN P \cup Ghosts(P) : \A y \in S : x \in AncG(P, y)}
         l == HeadsF(P, common)
     IN IF common = {} THEN Null ELSE IF Cardinality(l) = 1 THEN CHOOSE x \in l : TRUE ELSE UniqueLcaOf(P, l)
 
@@ -183,11 +184,12 @@ Meaning(P, tip, sp) ==
       [] sp.k = "mainline" -> IF Present(P, sp.a) THEN {FirstMerger(P, tip, sp.a)}
                               ELSE {ERR} \cup {FirstMerger(P, tip, x) : x \in {y \in Anc0(P, tip) : sp.a \in ParentSet(P, y)}}
       [] sp.k = "ancestor" ->
-            LET ca == CommonAnc(P, tip, sp.a)
+            LET ca == AncG(P, tip) \cap AncG(P, sp.a)                 \* common ancestors, ghosts included
                 l == HeadsF(P, ca)
+                u == UniqueLcaOf(P, {tip, sp.a})
             IN IF sp.a = Null \/ ca = {} THEN {ERR}
-               ELSE IF Cardinality(l) = 1 THEN l
-               ELSE ca \cup (IF UniqueLcaOf(P, {tip, sp.a}) = Null THEN {ERR} ELSE {})
+               ELSE IF Cardinality(l) = 1 THEN (IF l \subseteq DOMAIN P THEN l ELSE l \cup {ERR})    \* a ghost cannot be "in history"
+               ELSE ca \cup (IF u = Null \/ u \notin DOMAIN P THEN {ERR} ELSE {})
       [] sp.k = "before" ->
             LET b == Base(P, tip, sp.b, sp.a)
             IN IF b = ERR \/ b = Null \/ ~Present(P, b) THEN {ERR}
@@ -354,11 +356,12 @@ LawLevelsLimit(P, tip, ob) ==
                  => ob.logs[k].rows = Prefix(LogOf(ob, NoLimit(q)), q.limit)
 \* a file's mainline revisions are the same whether matched by the per-file graph or by deltas
 MainOnly(rows) == SelectSeq(rows, LAMBDA x : x.d = 0)
-LawFile(P, tip, ob) ==
-    \A k \in DOMAIN ob.logs :
+BadFile(P, tip, ob) ==
+    {k \in DOMAIN ob.logs :
         LET q == ob.logs[k].q
             other == [q EXCEPT !.deltas = ~q.deltas]
-        IN (q.file # 0 /\ HasLog(ob, other)) => MainOnly(ob.logs[k].rows) = MainOnly(LogOf(ob, other))
+        IN q.file # 0 /\ HasLog(ob, other) /\ MainOnly(ob.logs[k].rows) # MainOnly(LogOf(ob, other))}
+LawFile(P, tip, ob) == BadFile(P, tip, ob) = {}
 
 C25Laws == <<"complete", "rowdata", "forward", "mainline", "range", "levelslimit", "file">>
 C25Law(n, P, tip, ob) ==
@@ -385,6 +388,10 @@ VerUpTo(P, T, n) ==        \* <<ver[1..n], forced subset of 1..n>>
             ELSE <<Append(v, n), prev[2] \cup {n}>>
 VerOf(P, T) == VerUpTo(P, T, Len(P))[1]
 TouchClosure(P, T) == T \cup VerUpTo(P, T, Len(P))[2]
+\* the file is introduced once (a file id is minted by one `add`): at most one touching revision has no parent with it
+SingleOrigin(P, T) ==
+    LET v == VerOf(P, T)
+    IN Cardinality({r \in TouchClosure(P, T) : \A p \in ParentSet(P, r) \cap DOMAIN P : v[p] = Null}) <= 1
 \* mainline revisions (newest first) whose tree differs from their left parent's in this file
 FileMainline(P, tip, ver) ==
     LET lh == LeftHand(P, tip)
